@@ -280,6 +280,9 @@ class Verifier:
                 return dict(kind="unsupported", goal=None, detail=str(e), inlined=None)
         try:
             paths = smt.explore(run, (), max_paths=max_paths)
+        except RuntimeError as e:
+            # path explosion / exploration budget: the function is out of the verifier's reach in this run (never a verdict)
+            return [dict(name=C.name + "#explore", contract=C.name, fn=C.fn, props=list(C.props), status="out-of-reach", detail=str(e), seconds=time.time() - t0)]
         except Exception as e:
             return [dict(name=C.name + "#explore", contract=C.name, fn=C.fn, status="error",
                          detail="".join(traceback.format_exception_only(type(e), e)) + traceback.format_exc()[-1500:], seconds=time.time() - t0)]
